@@ -502,8 +502,10 @@ func streamC15(c *Ctx) {
 		g := NewGen(c.Rng, dm)
 		h := NewHistGen(g, 2, 3)
 		lines := h.History(HistCfg{Ops: 25, QueriesPer: 2, Indexes: true, Dumps: true, Malformed: true, NoFresh: true})
-		if hN == 0 {
-			lines = bigIndexHistory(g, c.N(300, 2000))
+		if hN < 4 {
+			// indexes of several sizes created, dropped and re-created: from a few entries (sharing a storage
+			// page with the catalog) to many pages
+			lines = bigIndexHistory(g, []int{25, 90, c.N(300, 2000), 9}[hN])
 		}
 		var first *HistoryOutcome
 		for bi, im := range impls {
